@@ -115,6 +115,68 @@ def inventory():
     return sorted(sites), sorted(makers)
 
 
+def kwctor_odd():
+    """every IrcMsg(...) call whose prefix / command / server_tags are NOT fixed text -- the keyword constructor asserts only on args:
+       non-literal command=, prefix= that is not a literal (a maker forwarding its own `prefix` parameter is fine as long as nobody
+       calls that maker with a prefix), any server_tags=, any positional argument (the raw-line branch).  (file, def, what)"""
+    mt = tree('src/ircmsgs.py')
+    prefix_pos = {}
+    for node in mt.body:
+        if isinstance(node, ast.FunctionDef):
+            names = [a.arg for a in node.args.args]
+            if 'prefix' in names:
+                prefix_pos[node.name] = names.index('prefix')
+    for node in mt.body:       # whois = functools.partial(_whois, 'WHOIS')
+        if isinstance(node, ast.Assign) and isinstance(node.value, ast.Call) and ast.unparse(node.value.func) == 'functools.partial':
+            a = node.value.args
+            need(len(a) == 2 and isinstance(a[1], ast.Constant) and isinstance(a[1].value, str) and a[1].value.isalpha(),
+                 'ircmsgs.py: functools.partial with a non-literal command: ' + ast.unparse(node))
+            if ast.unparse(a[0]) in prefix_pos:
+                prefix_pos[ast.unparse(node.targets[0])] = prefix_pos[ast.unparse(a[0])] - 1
+    files = sorted(glob.glob(os.path.join(REPO, 'src', '**', '*.py'), recursive=True)
+                   + glob.glob(os.path.join(REPO, 'plugins', '**', '*.py'), recursive=True))
+    out, seen = [], set()
+    for fn in files:
+        rel = os.path.relpath(fn, REPO).replace(os.sep, '/')
+        real = os.path.realpath(fn)
+        if os.path.basename(fn) == 'test.py' or real in seen:
+            continue
+        seen.add(real)
+        with warnings.catch_warnings():
+            warnings.simplefilter('ignore')
+            t = tree(rel)
+        enc = _enclosing(t)
+        params = {}
+        for n in ast.walk(t):
+            if isinstance(n, ast.FunctionDef):
+                for ch in ast.walk(n):
+                    params.setdefault(id(ch), set()).update(a.arg for a in n.args.args)
+        for c in ast.walk(t):
+            if not isinstance(c, ast.Call):
+                continue
+            where = enc.get(id(c), '<module>')
+            if _is_ircmsg_ctor(c):
+                kw = {k.arg: k.value for k in c.keywords}
+                need(None not in kw, 'IrcMsg(**kwargs) in %s' % rel)
+                cmd, pre = kw.get('command'), kw.get('prefix')
+                if cmd is not None and not (isinstance(cmd, ast.Constant) and isinstance(cmd.value, str)):
+                    out.append((rel, where, 'command=' + ast.unparse(cmd)))
+                if pre is not None and not isinstance(pre, ast.Constant):
+                    own_param = rel == 'src/ircmsgs.py' and isinstance(pre, ast.Name) and pre.id == 'prefix' and 'prefix' in params.get(id(c), ())
+                    if not own_param:
+                        out.append((rel, where, 'prefix=' + ast.unparse(pre)))
+                if 'server_tags' in kw:
+                    out.append((rel, where, 'server_tags'))
+                if c.args:
+                    out.append((rel, where, 'raw line'))
+            elif isinstance(c.func, ast.Attribute) and isinstance(c.func.value, ast.Name) and c.func.value.id == 'ircmsgs' \
+                    and c.func.attr in prefix_pos:
+                if any(k.arg == 'prefix' for k in c.keywords) or any(k.arg is None for k in c.keywords) \
+                        or len(c.args) > prefix_pos[c.func.attr] or any(isinstance(a, ast.Starred) for a in c.args):
+                    out.append((rel, where, 'maker called with a prefix: ' + c.func.attr))
+    return sorted(set(out))
+
+
 def nonprintable_ranges():
     r, s = [], None
     for i in range(0, 0x110000):
@@ -273,6 +335,8 @@ def gen_T06():
     out += 'Definition MSGCTOR_SITES : list (string * string * N * string * bool * bool) :=\n  %s.\n' % clist(
         '\n   (%s, %s, %d, %s, %s, %s)' % (coqstring(f), coqstring(fn), k, coqstring(cal), cbool(a), cbool(r))
         for f, fn, k, cal, a, r in sites)
+    out += 'Definition KWCTOR_ODD : list (string * string * string) :=\n  %s.\n' % clist(
+        '\n   (%s, %s, %s)' % (coqstring(a), coqstring(b), coqstring(c_)) for a, b, c_ in kwctor_odd())
     out += 'Definition FILTER_COMMANDS : list string := %s.\n' % clist(coqstring(m) for m in filter_cmds)
     out += 'Definition MAKERS_WITH_MSG : list string := %s.\n' % clist(coqstring(m) for m in makers)
     return 'src/ircutils.py, src/irclib.py, src/callbacks.py, src/ircmsgs.py, plugins/**', out
